@@ -339,14 +339,27 @@ func Indent(dst *bytes.Buffer, src []byte, prefix, indent string) error {
 // escaping within <script> tags, so an alternative JSON encoding must
 // be used.
 func HTMLEscape(dst *bytes.Buffer, src []byte) {
-	var v interface{}
-	dec := NewDecoder(bytes.NewBuffer(src))
-	dec.UseNumber()
-	if err := dec.Decode(&v); err != nil {
+	// nothing is appended for a text that is not valid JSON; a valid text is copied as it is
+	// except for the five characters, which are inside string literals there
+	if !Valid(src) {
 		return
 	}
-	buf, _ := marshal(v)
-	dst.Write(buf)
+	const hex = "0123456789abcdef"
+	start := 0
+	for i, c := range src {
+		if c == '<' || c == '>' || c == '&' {
+			dst.Write(src[start:i])
+			dst.Write([]byte{'\\', 'u', '0', '0', hex[c>>4], hex[c&0xF]})
+			start = i + 1
+		}
+		// U+2028 is E2 80 A8, U+2029 is E2 80 A9
+		if c == 0xE2 && i+2 < len(src) && src[i+1] == 0x80 && src[i+2]&^1 == 0xA8 {
+			dst.Write(src[start:i])
+			dst.Write([]byte{'\\', 'u', '2', '0', '2', hex[src[i+2]&0xF]})
+			start = i + 3
+		}
+	}
+	dst.Write(src[start:])
 }
 
 // Valid reports whether data is a valid JSON encoding.
